@@ -463,7 +463,12 @@ def c01_cases(seed, n, tier, replay=None):
                              "history_kind": "root", "supported": False, "doc": doc}
     for i, (name, doc) in enumerate(schemars_corpus()):
         r = util.rng(seed, "C01", "m", name)
-        add("m%04d" % i, doc, "schemars:" + name, r, supported=True, settings={}, hk=r.choice(["root", "refs_split"]))
+        if name.startswith(("forced_", "doc_")):
+            # the directed origin types go through both ingestion routes
+            add("m%04d" % i, doc, "schemars:" + name, r, supported=True, settings={}, hk="root")
+            add("n%04d" % i, doc, "schemars:" + name, r, supported=True, settings={}, hk="refs_split")
+        else:
+            add("m%04d" % i, doc, "schemars:" + name, r, supported=True, settings={}, hk=["root", "refs_split"][(i + seed) % 2])
     for name, c in corpus_cases("C01"):
         cid = "k_" + re.sub(r"[^A-Za-z0-9]", "_", name)
         c = dict(c)
